@@ -19,7 +19,7 @@ RULE = ("as_pixels / as_ascii of all three maze kinds compared pixel by pixel (c
 ASSUMPTIONS = ["when start == end the colour of that cell is unspecified (START or END accepted); round trip only claimed for start != end",
                "solutions rendered are valid walks (consecutive cells connected)"]
 NSHARDS = {"quick": 16, "thorough": 16}
-THRESHOLDS = {"quick": {
+THRESHOLDS = {"quick": {"c10:int8-coordinates": 2000, "c10:roundtrips-under-python-O": 60, 
     "c10:render:LatticeMaze": 6541, "c10:render:TargetedLatticeMaze": 3000, "c10:render:SolvedMaze": 3000,
     "c10:flags:SolvedMaze:TT": 500, "c10:flags:SolvedMaze:TF": 500, "c10:flags:SolvedMaze:FF": 500,
     "c10:flags:TargetedLatticeMaze:TT": 300, "c10:flags:TargetedLatticeMaze:TF": 300, "c10:flags:TargetedLatticeMaze:FF": 300,
@@ -59,16 +59,31 @@ def _cmp_img(ctx, got, exp, same_cell, mech, case):
     return False
 
 
+_DT = [0]
+
+
 def check_maze(ctx, kind, cl, s, e, path, case, roundtrip=True):
     from maze_dataset.maze.lattice_maze import LatticeMaze, SolvedMaze, TargetedLatticeMaze
 
     R, C = cl.shape[1:]
+    _DT[0] += 1
+    int8 = (_DT[0] % 3 == 0)   # coordinates stored as int8: what mazes hold after a trip through the compact on-disk formats
     if kind == "LatticeMaze":
         m = lib.lattice(cl); cls = LatticeMaze
     elif kind == "TargetedLatticeMaze":
-        m = lib.targeted(cl, s, e); cls = TargetedLatticeMaze
+        cls = TargetedLatticeMaze
+        if int8:
+            ctx.tally("c10:int8-coordinates")
+            m = TargetedLatticeMaze(connection_list=np.array(cl, dtype=bool), start_pos=np.array(s, dtype=np.int8), end_pos=np.array(e, dtype=np.int8))
+        else:
+            m = lib.targeted(cl, s, e)
     else:
-        m = lib.solved(cl, path); cls = SolvedMaze
+        cls = SolvedMaze
+        if int8:
+            ctx.tally("c10:int8-coordinates")
+            m = SolvedMaze(connection_list=np.array(cl, dtype=bool), solution=np.array(path, dtype=np.int8))
+        else:
+            m = lib.solved(cl, path)
     st = s if kind != "LatticeMaze" else None
     en = e if kind != "LatticeMaze" else None
     sol = path if kind == "SolvedMaze" else None
@@ -139,7 +154,50 @@ def check_maze(ctx, kind, cl, s, e, path, case, roundtrip=True):
             ctx.check(np.array_equal(back.connection_list, cl), "C10/roundtrip/bw/connection-list-differs", "", case)
 
 
+def _optimised_interpreter(ctx):
+    """the same round trips in a child interpreter started with -O (assert statements are not executed there): reading back a
+    picture of a valid solved maze must not depend on it"""
+    import json
+    import subprocess
+
+    from ..core import VERIF_ROOT
+    from ..runner import PY, shard_env
+
+    code = (
+        "import json,sys,warnings; warnings.filterwarnings('ignore'); import numpy as np\n"
+        "from vmon import ref; from vmon.ref import Graph\n"
+        "from maze_dataset.maze.lattice_maze import SolvedMaze, TargetedLatticeMaze, LatticeMaze\n"
+        "rng=np.random.default_rng(int(sys.argv[1])); bad=[]; n=0\n"
+        "for t in range(60):\n"
+        "    R=int(rng.integers(2,9)); C=R if t%3 else int(rng.integers(1,9))\n"
+        "    fam=['tree','cyc3','perc8'][t%3]; _,cl=ref.random_structure(R,C,rng,fam); g=Graph(cl)\n"
+        "    cells=ref.all_cells(R,C); s=cells[int(rng.integers(len(cells)))]; comp=sorted(g.component_of(s)); e=comp[int(rng.integers(len(comp)))]\n"
+        "    if s==e: continue\n"
+        "    path=g.shortest_path(s,e,rng); m=SolvedMaze(connection_list=cl,solution=np.array(path))\n"
+        "    for via in ('pixels','ascii'):\n"
+        "        n+=1\n"
+        "        try:\n"
+        "            b=SolvedMaze.from_pixels(m.as_pixels()) if via=='pixels' else SolvedMaze.from_ascii(m.as_ascii())\n"
+        "            ok=type(b) is SolvedMaze and np.array_equal(b.connection_list,cl) and [tuple(int(x) for x in p) for p in b.solution]==[tuple(p) for p in path]\n"
+        "        except Exception as ex:\n"
+        "            ok=False; b=repr(ex)[:100]\n"
+        "        if not ok: bad.append(dict(via=via,shape=[R,C],s=list(s),e=list(e),got=str(getattr(b,'solution',b))[:120],expected=str(path)[:120]))\n"
+        "print(json.dumps(dict(n=n,bad=bad[:5],nbad=len(bad),optimised=not __debug__)))\n"
+    )
+    p = subprocess.run([PY, "-O", "-c", code, str(ctx.case_seed("opt") % 10**6)], capture_output=True, text=True, env=shard_env(), cwd=VERIF_ROOT, timeout=600)
+    if p.returncode != 0 or "{" not in p.stdout:
+        ctx.tally("c10:optimised-child-failed(not judged)")
+        ctx.note(f"-O child failed: {p.stderr[-300:]}")
+        return
+    r = json.loads(p.stdout[p.stdout.index("{"):])
+    ctx.ev(r["n"]); ctx.tally("c10:roundtrips-under-python-O", r["n"])
+    ctx.check(r["nbad"] == 0, "C10/roundtrip/under-python-O/solution-or-structure-differs",
+              f"{r['nbad']} of {r['n']} round trips of solved mazes differ in an interpreter started with -O: {r['bad'][:2]}", dict(examples=r["bad"]))
+
+
 def run(ctx):
+    if ctx.shard == 1:
+        _optimised_interpreter(ctx)
     k = 0
     for (R, C) in ref.EXH_SHAPES:
         slots = ref.lattice_edge_slots(R, C)
